@@ -381,6 +381,26 @@ func C15(c *ev.Ctx) {
 				bad, key = "Get on a too-short buffer was not refused", fmt.Sprintf("get%d", len(pc.W)*8)
 			}
 		}
+		if bad == "" && pc.Len == 0 && pc.Refused == 1 {
+			// the other Go representations of a buffer of length 0: the nil slice (literal, unassigned variable,
+			// zero-value struct field, re-slice of one)
+			var unassigned []byte
+			var holder struct{ b []byte }
+			for name, nb := range map[string][]byte{"nil literal": nil, "unassigned variable": unassigned, "zero-value struct field": holder.b, "re-slice of nil": unassigned[:0]} {
+				var pp, gp bool
+				if len(pc.W) == 8 {
+					pp = catchPanic(func() { machine.UInt64Put(nb, x) })
+					gp = catchPanic(func() { machine.UInt64Get(nb) })
+				} else {
+					pp = catchPanic(func() { machine.UInt32Put(nb, uint32(x)) })
+					gp = catchPanic(func() { machine.UInt32Get(nb) })
+				}
+				if !pp || !gp {
+					bad = fmt.Sprintf("a buffer of length 0 given as the nil slice (%s) was not refused (Put refused: %v, Get refused: %v)", name, pp, gp)
+					break
+				}
+			}
+		}
 		distinct[fmt.Sprintf("%d/%d/%s/%v", pc.Len, pc.Slack, pc.Prior, pc.W)] = true
 		if i < 2 {
 			c.Sample(pc)
@@ -445,6 +465,56 @@ func runWT(s wtScenario) (evs []map[string]any, hung bool) {
 			machine.WaitTimeout(c2, 0)
 			m2.Unlock()
 		}
+	}
+	if strings.HasPrefix(s.Prelude, "crowd") {
+		// 16 other goroutines, each with a condition variable and mutex of its own, keep calling WaitTimeout (short
+		// timeouts; every second one is also signalled now and then) while the observed call is in flight
+		stop := make(chan struct{})
+		var cw sync.WaitGroup
+		defer func() {
+			close(stop)
+			done := make(chan struct{})
+			go func() { cw.Wait(); close(done) }()
+			select {
+			case <-done:
+			case <-time.After(2 * time.Second):
+			}
+		}()
+		for g := 0; g < 16; g++ {
+			m2 := new(sync.Mutex)
+			c2 := sync.NewCond(m2)
+			cw.Add(1)
+			go func(g int) {
+				defer cw.Done()
+				for {
+					select {
+					case <-stop:
+						return
+					default:
+					}
+					m2.Lock()
+					machine.WaitTimeout(c2, uint64(5+3*g))
+					m2.Unlock()
+				}
+			}(g)
+			if g%2 == 0 {
+				cw.Add(1)
+				go func(g int) {
+					defer cw.Done()
+					for {
+						select {
+						case <-stop:
+							return
+						case <-time.After(time.Duration(3+g) * time.Millisecond):
+						}
+						m2.Lock()
+						c2.Signal()
+						m2.Unlock()
+					}
+				}(g)
+			}
+		}
+		time.Sleep(30 * time.Millisecond)
 	}
 	t00 := time.Now()
 	ms := func() int { return int(time.Since(t00) / time.Millisecond) }
@@ -672,7 +742,10 @@ func C16(c *ev.Ctx) {
 		wtScenario{Name: "leak-then-timeout", TimeoutMs: 20, SigAtMs: -1, Prelude: "leak"},
 		wtScenario{Name: "300-leaks-elsewhere-then-signal", TimeoutMs: 1500, SigAtMs: 30, Kind: "signal", Prelude: "farleak"},
 		wtScenario{Name: "300-leaks-elsewhere-then-broadcast", TimeoutMs: 1500, SigAtMs: 5, Kind: "broadcast", Prelude: "farleak"},
-		wtScenario{Name: "300-leaks-elsewhere-then-timeout", TimeoutMs: 20, SigAtMs: -1, Prelude: "farleak"})
+		wtScenario{Name: "300-leaks-elsewhere-then-timeout", TimeoutMs: 20, SigAtMs: -1, Prelude: "farleak"},
+		wtScenario{Name: "16-callers-elsewhere-then-timeout", TimeoutMs: 50, SigAtMs: -1, Prelude: "crowd"},
+		wtScenario{Name: "16-callers-elsewhere-then-signal", TimeoutMs: 1500, SigAtMs: 30, Kind: "signal", Prelude: "crowd"},
+		wtScenario{Name: "16-callers-elsewhere-then-broadcast", TimeoutMs: 1500, SigAtMs: 5, Kind: "broadcast", Prelude: "crowd"})
 	reps := c.Pick(1, 8)
 	validate := func(evs []map[string]any) (bool, int, bool) {
 		tv := validateTrace(dir, "WaitTimeoutTrace", evs, false, 3*time.Minute)
